@@ -31,6 +31,23 @@ OpText(C, r) ==
       \* an explicit byte offset "+off" makes the operation one fragment of a Read / Write Tag Fragmented transfer
       offs == IF r.svc \in {"readf", "writef"} THEN "+" \o ToString(r.off) ELSE ""
   IN IF r.svc \in {"read", "readf", "gas"} THEN base \o range \o offs ELSE base \o range \o offs \o "=(" \o r.typ \o ")" \o Csv(r.typ, r.vals)
+\* Other spellings of the same operation (reads by numeric address): numbers in another base, a term given as a JSON object, the element as
+\* a fourth term, the count as '*n' instead of a range
+HexDigit(d) == CASE d = 0 -> "0" [] d = 1 -> "1" [] d = 2 -> "2" [] d = 3 -> "3" [] d = 4 -> "4" [] d = 5 -> "5" [] d = 6 -> "6" [] d = 7 -> "7"
+                 [] d = 8 -> "8" [] d = 9 -> "9" [] d = 10 -> "a" [] d = 11 -> "B" [] d = 12 -> "c" [] d = 13 -> "D" [] d = 14 -> "e" [] d = 15 -> "F"
+Hex(n) == "0x" \o (IF n >= 16 THEN HexDigit(n \div 16) ELSE "") \o HexDigit(n % 16)
+RECURSIVE Bin(_)
+Bin(n) == IF n < 2 THEN ToString(n) ELSE Bin(n \div 2) \o ToString(n % 2)
+AltTexts(C, r) ==
+  LET T == C.tags[r.tag]  c == T.cia[1]  i == T.cia[2]  a == T.cia[3]
+      rng == IF r.idx < 0 THEN "" ELSE IF r.n = 1 THEN "[" \o ToString(r.idx) \o "]" ELSE "[" \o ToString(r.idx) \o "-" \o ToString(r.idx + r.n - 1) \o "]"
+  IN IF r.svc # "read" \/ r.mode # "cia" THEN {}
+     ELSE { "@" \o Hex(c) \o "/" \o ToString(i) \o "/" \o ToString(a) \o rng,
+            "@" \o ToString(c) \o "/0b" \o Bin(i) \o "/0o" \o ToString(a) \o rng,                                \* (attribute numbers < 8 here)
+            "@{\"class\": " \o ToString(c) \o "}/" \o ToString(i) \o "/{\"attribute\": " \o ToString(a) \o "}" \o rng }
+          \cup (IF r.idx < 0 THEN {} ELSE
+                { "@" \o ToString(c) \o "/" \o ToString(i) \o "/" \o ToString(a) \o "/" \o ToString(r.idx) \o (IF r.n = 1 THEN "" ELSE "*" \o ToString(r.n)),
+                  "@" \o ToString(c) \o "/" \o ToString(i) \o "/" \o ToString(a) \o "[" \o ToString(r.idx) \o "]*" \o ToString(r.n) })
 \* A write spelled WITHOUT a cast: integer values denote the default integer type of the entry point that parses the text --
 \* INT for tag operations (client.parse_operations), SINT for attribute operations (get_attribute.attribute_operations)
 DefaultIntType(r) == IF r.svc = "sas" THEN "SINT" ELSE "INT"
